@@ -1297,6 +1297,58 @@ func hRunHistory(t *testing.T, out *vOut, r *rand.Rand, id int) {
 		doCrash()
 		doPools(w.pools)
 		out.Stat("directed_restart_scenarios", 1)
+	} else if id%8 == 1 {
+		// directed: a waiter that can only SHARE the single address; the holder is then edited so that sharing becomes possible
+		doPools([]gPool{{Name: "pa", CIDRs: []string{"10.0.5.6/32"}, Auto: true}})
+		holder := gSpec{LB: true, Fam: "ipv4", ClusterOK: true, Pol: "single", Ports: []int{0}, Sharing: "k1", Local: true, Selector: map[string]string{"app": "a"}}
+		waiter := gSpec{LB: true, Fam: "ipv4", ClusterOK: true, Pol: "single", Ports: []int{1}, Sharing: "k1", Local: true, Selector: map[string]string{"app": "b"}}
+		doPut("ns1/a", holder)
+		doReload(-1)
+		drain()
+		doPut("ns1/b", waiter)
+		if drain() {
+			checkQuiescent()
+		}
+		switch r.Intn(3) {
+		case 0: // same pods now
+			holder.Selector = map[string]string{"app": "b"}
+		case 1: // both Cluster
+			holder.Local, waiter.Local = false, false
+			doPut("ns1/b", waiter)
+		default: // the holder gives the address up
+			holder.LB = false
+		}
+		doPut("ns1/a", holder)
+		if drain() {
+			checkQuiescent()
+		}
+		out.Stat("directed_sharing_scenarios", 1)
+	} else if id%8 == 2 {
+		// directed: a dual-stack service whose IPv6 address is shared with a single-stack one changes its sharing key
+		doPools([]gPool{{Name: "pa", CIDRs: []string{"10.0.0.4/31", "fc00::4/127"}, Auto: true}})
+		six := gSpec{LB: true, Fam: "ipv6", ClusterOK: true, Pol: "single", First6: true, Ports: []int{0}, Sharing: "k1"}
+		dual := gSpec{LB: true, Fam: "dual", ClusterOK: true, Pol: "require", Ports: []int{1}, Sharing: "k1", WantKind: "annot", WantIPs: []string{"10.0.0.4", "fc00::4"}}
+		doPut("ns1/b", six)
+		doReload(-1)
+		drain()
+		doPut("ns1/a", dual)
+		if drain() {
+			checkQuiescent()
+		}
+		variant := r.Intn(3)
+		if variant != 2 {
+			// make the dual-stack service the one that was synced last on the shared address
+			doPut("ns1/a", dual)
+			drain()
+		}
+		dual.Sharing = []string{"k2", "k2", ""}[variant]
+		doPut("ns1/a", dual)
+		// the single-stack co-tenant is re-synced on its own, then everything settles
+		doPut("ns1/b", six)
+		if drain() {
+			checkQuiescent()
+		}
+		out.Stat("directed_dualstack_sharing_scenarios", 1)
 	} else {
 		doPools(gGenPools(r))
 	}
